@@ -388,6 +388,11 @@ func (mgr *GCMgr) gc(bkt *Bucket, startChunkID, endChunkID int, merge bool) {
 
 		if gc.Src != gc.Dst {
 			bkt.datas.chunks[gc.Src].Clear()
+		} else {
+			// this file has been rewritten in place: drop its stale tail now, not at the end
+			// of the pass. Records of later files appended here would otherwise sit before
+			// the stale (older or deleted) versions, and a kill would bring those back.
+			dstchunk.truncateRewritten()
 		}
 		if gc.Src+1 >= bkt.NextGCChunk {
 			bkt.NextGCChunk = gc.Src + 1
